@@ -116,3 +116,101 @@ def _single_target(stmt) -> Optional[str]:
     if isinstance(stmt, ast.AnnAssign) and isinstance(stmt.target, ast.Name):
         return stmt.target.id
     return None
+
+
+def _const_index(e) -> Optional[int]:
+    if isinstance(e, ast.Subscript) and isinstance(e.slice, ast.Constant) and isinstance(e.slice.value, int) and not isinstance(e.slice.value, bool) and e.slice.value >= 0:
+        return e.slice.value
+    return None
+
+
+def component_origins(cfg: CFG, expr: ast.expr, at=None, _depth: int = 0):
+    """``origins`` that also reads a constant non-negative subscript as a tuple component.
+
+    ``rec[0]`` (``rec`` a loop variable, a parameter, a local holding a tuple display …) gives the
+    origin of ``rec`` with ``0`` appended to its path — the same fact as ``a, b, c = rec`` /
+    ``for a, b, c in …`` followed by ``a``; a local holding such a subscript (``d = rec[0]``) is
+    looked through as well.  Everything else is what ``origins`` returns."""
+    from .cfg import Origin
+
+    if at is None:
+        at = cfg.stmt_of(expr)
+    if _depth > 6:
+        return [Origin(expr, (), "expr", at)]
+    idx = _const_index(expr)
+    if idx is not None and isinstance(expr.value, (ast.Name, ast.Subscript)):
+        out = []
+        for o in component_origins(cfg, expr.value, at, _depth + 1):
+            if o.kind == "expr" and not o.path and isinstance(o.expr, (ast.Tuple, ast.List)):
+                if idx < len(o.expr.elts) and not any(isinstance(x, ast.Starred) for x in o.expr.elts[: idx + 1]):
+                    out += component_origins(cfg, o.expr.elts[idx], o.stmt, _depth + 1)
+                else:
+                    out.append(Origin(expr, (), "unknown", at))
+            else:
+                out.append(Origin(o.expr, tuple(o.path) + (idx,), o.kind, o.stmt))
+        return out
+    if isinstance(expr, ast.Name):
+        out = []
+        for o in origins(cfg, expr, at):
+            if o.kind == "expr" and _const_index(o.expr) is not None and o.stmt is not None:
+                for c in component_origins(cfg, o.expr, o.stmt, _depth + 1):
+                    out.append(Origin(c.expr, tuple(c.path) + tuple(o.path), c.kind, c.stmt))
+            else:
+                out.append(o)
+        return out
+    return [Origin(expr, (), "expr", at)]
+
+
+def expanded(cfg: CFG, expr: ast.expr, at, _depth: int = 0) -> ast.expr:
+    """A fresh copy of ``expr`` in which every local that holds exactly one expression is replaced
+    by that expression (``edit = f.edit; len(edit)`` reads as ``len(f.edit)``).
+
+    A local is only replaced when its single definition reaches ``at`` and nothing its expression
+    reads was re-bound in between; parameters, loop variables, accumulated values and names with
+    several definitions stay as they are.  The result is for *reading* (``norm``/matching): it
+    has no parent links and is not part of the tree."""
+    rd = cfg.reaching()
+    opaque = (ast.Lambda, ast.ListComp, ast.SetComp, ast.DictComp, ast.GeneratorExp, ast.Yield, ast.YieldFrom, ast.Await, ast.NamedExpr)
+
+    def cp(n, subst: bool):
+        if isinstance(n, list):
+            return [cp(x, subst) for x in n]
+        if not isinstance(n, ast.AST):
+            return n
+        if subst and isinstance(n, ast.Name) and isinstance(n.ctx, ast.Load) and _depth < 4:
+            os_ = origins(cfg, n, at)
+            if len(os_) == 1 and os_[0].kind == "expr" and not os_[0].path and os_[0].stmt is not None and isinstance(os_[0].expr, ast.AST):
+                o = os_[0]
+                if not isinstance(o.expr, opaque) and all(rd.defs_at(o.stmt, x) == rd.defs_at(at, x) for x in names_in(o.expr)):
+                    return expanded(cfg, o.expr, o.stmt, _depth + 1)
+        new = type(n)()
+        inner = subst and not isinstance(n, opaque)
+        for f in n._fields:
+            if hasattr(n, f):
+                setattr(new, f, cp(getattr(n, f), inner))
+        for a in ("lineno", "col_offset", "end_lineno", "end_col_offset"):
+            if hasattr(n, a):
+                setattr(new, a, getattr(n, a))
+        return new
+
+    return cp(expr, True)
+
+
+def edge_atoms(cfg: CFG, br, inside=None) -> List[Tuple[ast.expr, bool, object]]:
+    """Everything known when the ``Branch`` edge ``br`` is taken: its own atoms plus those of every
+    branch dominating it (optionally only those whose statement lies inside ``inside``), read
+    through boolean locals.  Items are ``(expr, truth, statement where the test is evaluated)``."""
+    out: List[Tuple[ast.expr, bool, object]] = []
+    gs = [g for g in cfg.guards(br) if g is not br] + [br]
+    for g in gs:
+        if not isinstance(g, Branch) or not isinstance(g.stmt, (ast.If, ast.While)):
+            continue
+        if inside is not None:
+            p = g.stmt
+            while p is not None and p is not inside:
+                p = getattr(p, "_parent", None)
+            if p is None:
+                continue
+        for e, pol in branch_atoms(cfg, g):
+            out.append((e, pol, g.stmt))
+    return out
